@@ -27,7 +27,7 @@ CHANGE_LOWER = 50000
 
 def runs(tier, seed):
     if tier == "thorough":
-        return [Run("coinsel", cases=400000, params={"nmax": 20, "big": 3}, timeout=3000)]
+        return [Run("coinsel", cases=300000, params={"nmax": 20, "big": 3}, timeout=3000)]
     return [Run("coinsel", cases=6000, params={"nmax": 16, "big": 4}, timeout=900)]
 
 
